@@ -43,6 +43,10 @@ def op_spec3(d):
     op = item[d["method"]]
     for p in d.get("params", []):
         o = {"name": p["name"], "in": p["in"], "schema": param_schema3(p)}
+        if p.get("type") == "noschema":
+            # described by `content` instead of `schema`: typed `Option<String>` by the generator (finding F03-10, repaired)
+            del o["schema"]
+            o["content"] = {"application/json": {"schema": {"type": "object"}}}
         if p.get("required") or p["in"] == "path":
             o["required"] = True
         for k in ("style", "explode"):
@@ -70,6 +74,8 @@ def wire_param(r, loc, name=None, level=None):
             p["explode"] = r.choice([None, True, False, False])
     elif r.random() < 0.12:
         p["default"] = DEFAULTS[p["type"]]
+    elif loc == "query" and r.random() < 0.08:
+        p["type"] = "noschema"
     return p
 
 
